@@ -1,5 +1,7 @@
-(* C14 - placeholder while the model is being written *)
-From Coq Require Import Arith.
-Theorem C14_placeholder : 1 + 1 = 2.
-Proof. exact (eq_refl 2). Qed.
-Print Assumptions C14_placeholder.
+(* C14 - placeholder while the proofs are being written *)
+From Coq Require Import Arith List.
+From ScV Require Import C14.ShmemModel.
+Import ListNotations.
+Theorem C14_grid_example : grid_position (attach_explicit 6 2 3) 3 = (1, 2, 1, 3).
+Proof. exact (eq_refl _). Qed.
+Print Assumptions C14_grid_example.
